@@ -52,6 +52,8 @@ class _TemplateBuildDistinguisherMixin(partitioned._PartitionnedDistinguisherBas
         if not hasattr(self, '_timings'):
             self._timings = [-2, -1]
         function_idx = _np.argmin(self._timings)
+        if partitioned._VERIF and partitioned._verif_kernel_chooser is not None:
+            function_idx = partitioned._verif_kernel_chooser(self, function_idx, True)
         function = [self._accumulate_core_1, self._accumulate_core_2][function_idx]
         t0 = _time.process_time()
         function(traces, data, self._exi, self._exxi, self._counters, _np.dtype(self.precision).type)
